@@ -111,6 +111,89 @@ def joined_key(n, pk, sep, it):
     return None
 
 
+# Python values a FITS header card can hold (astropy writes None as an undefined-value card and reads it back as None)
+# and what each of them makes true: isinstance against these types, `is None`, finiteness.
+FITS_WORLDS = {
+    "None": {"types": {"builtins.NoneType", "types.NoneType"}, "none": True, "finite": None},
+    "bool": {"types": {"builtins.bool", "builtins.int", "numbers.Number", "numbers.Integral", "numbers.Real"},
+             "none": False, "finite": True},
+    "int": {"types": {"builtins.int", "numbers.Number", "numbers.Integral", "numbers.Real"}, "none": False,
+            "finite": True},
+    "str": {"types": {"builtins.str"}, "none": False, "finite": None},
+    "finite float": {"types": {"builtins.float", "numbers.Number", "numbers.Real"}, "none": False, "finite": True},
+}
+
+
+def _header_values_preserved(ck, I, sp0):
+    """R16.1: if the flattened items pass through a per-value transformation on their way into the table's meta
+    (dict comprehension over the items), every value a FITS card can hold must come out as itself.  The
+    transformation is read as a decision tree; a leaf that is not the value itself must be unreachable for None,
+    bool, int, str and finite float."""
+    from ..facets.pred import Pred
+    from ..facets.poly import eval_formula
+    g = I.g
+    if sp0.op != "DictComp" or len(sp0.args) < 3:
+        return
+    it, kel, vel = sp0.args[0], sp0.args[1], sp0.args[2]
+
+    def is_item_value(n):
+        return n.op == "Elem" and n.attr == 1 and n.args[0].op == "IterElem" and n.args[0].args[0] is it
+    if not any(is_item_value(x) for x in walk([vel])):
+        return          # not a per-item transformation of the flattened values (decided by the other obligations)
+    leaves_ = []
+
+    def rec(n, guards):
+        if n.op == "Phi":
+            rec(n.args[1], guards + [(n.args[0], True)])
+            rec(n.args[2], guards + [(n.args[0], False)])
+        else:
+            leaves_.append((n, guards))
+    rec(vel, [])
+    pr = Pred(I)
+    bad, undecided = [], []
+    for leaf, guards in leaves_:
+        if is_item_value(leaf):
+            continue
+        f = ("const", True)
+        for c, pol in guards:
+            fc = pr.formula(c)
+            f = ("and", f, fc if pol else ("not", fc))
+        for wname, w in FITS_WORLDS.items():
+            env = {}
+            for key in pr.atoms_of(f):
+                kind, a_, b_ = pr.atoms[key]
+                val = None
+                if a_ is not None and a_.op == "IsInstance" and is_item_value(a_.args[0]):
+                    ts = a_.args[1].args if a_.args[1].op == "Tuple" else (a_.args[1],)
+                    names = {t.attr for t in ts if t.op == "Ext"}
+                    if len(names) == len(ts):
+                        val = bool(names & w["types"])
+                elif kind == "o" and a_ is not None and a_.op == "Compare" and a_.attr in ("Is", "IsNot") and \
+                        any(is_item_value(x) for x in a_.args) and \
+                        any(x.op == "Const" and x.attr is None for x in a_.args):
+                    val = w["none"] if a_.attr == "Is" else (not w["none"])
+                elif a_ is not None and a_.op == "Call" and a_.args[0].op == "Ext" and \
+                        a_.args[0].attr in ("math.isfinite", "numpy.isfinite") and len(a_.args) == 2 and \
+                        is_item_value(a_.args[1]):
+                    val = w["finite"]
+                if val is not None:
+                    env[key] = val
+            t = eval_formula(f, env)
+            if t is False:
+                continue
+            (bad if t is True else undecided).append((wname, leaf))
+    for wname, leaf in bad[:4]:
+        ck.ob("R16.1", f"a configuration value of type {wname} reaches the header as itself", False, leaf,
+              "results_table.init", f"it is replaced by {g.show(leaf, 2)}: the header no longer holds the value that "
+              "was configured", construct=f"results_table.init: {wname} values are transformed on the way into the header")
+    for wname, leaf in undecided[:2]:
+        ck.ob("R16.1", f"a configuration value of type {wname} reaches the header as itself", None, leaf,
+              "results_table.init", f"whether {g.show(leaf, 2)} can replace it depends on tests outside the modelled set")
+    if not bad and not undecided:
+        ck.ob("R16.1", "values a FITS card can hold (None, bool, int, str, finite float) pass the per-value filter "
+              "unchanged", True, vel, "results_table.init", f"{len(leaves_)} leaf/leaves of the filter")
+
+
 def run(ck, ctx):
     ck.explanation = EXPLANATION
     I = ctx.interp()
@@ -143,6 +226,7 @@ def run(ck, ctx):
                 continue
             spreads = [v for kd, v in I.dict_items(meta) if kd[0] == "**"]
             for sp0 in spreads:
+                _header_values_preserved(ck, I, sp0)
                 cands = [n for n in walk([sp0]) if n.op == "Call" and n.args[0].op == "Func" and
                          n.args[0].attr.qualname in ("flatten_dict", "_flat")]
                 for sp in cands[:1]:
